@@ -1627,9 +1627,20 @@ func c16BFS(w *mc.W, menu []c16Op, run func(ops []c16Op) string) (states, depth 
 			depth++
 		}
 		frontier = next
+		// The unchanged library reaches its fixpoint at depth <= 8 with at most a few thousand states.  A library
+		// whose object state keeps growing with the number of calls (a call counter, an appended log)
+		// has no fixpoint: the search is abandoned there and the run is marked as not exhaustive - an
+		// unbounded state is not itself a violation; what the counter breaks is found by the oracles
+		// on the way and by the bounded families.
+		if depth >= c16BFSMaxDepth || len(seen) >= c16BFSMaxStates {
+			w.Ctx().NotExhaustive(fmt.Sprintf("a breadth-first search over object states did not reach a fixpoint within depth %d / %d states (the object's state grows with the number of calls); abandoned there", c16BFSMaxDepth, c16BFSMaxStates))
+			break
+		}
 	}
 	return len(seen), depth
 }
+
+const c16BFSMaxDepth, c16BFSMaxStates = 24, 20000
 
 // c16ParFor visits every index of [0,n) exactly once like the kernel's parallel loop, but with
 // at most two workers: every Block/Tx call that serialises, hashes or parses goes through two
